@@ -9,7 +9,7 @@
     order ([perm_oracle sh]). *)
 From Coq Require Import List NArith ZArith Bool Arith Permutation.
 From Verif Require Import Dag.Model Dag.Facts Dag.KahnProofs Dag.PushProofs Dag.LayoutProofs Dag.Summary
-     Gen.DagsSrc Dag.DagGen Dag.CircleLegacy.
+     Dag.Ops Dag.OpsProofs Dag.RevLayout Dag.SeqLayout Gen.DagsSrc Dag.DagGen Dag.CircleLegacy.
 Import ListNotations.
 
 (** The checker accepts exactly the graphs all of whose edge targets are
@@ -265,3 +265,169 @@ Example bad_params_collide :
   | MErr _ => False
   end.
 Proof. vm_compute. split; reflexivity. Qed.
+
+(** * Round 3: the derived-graph entry points (graph.go Remove / SubGraph /
+      Rename, closure.go Closure) *)
+
+(** Remove(x): the edges that touch neither end. *)
+Theorem C19_remove_edges : forall g x u v,
+  edge (g_remove g x) u v <-> u <> x /\ v <> x /\ edge g u v.
+Proof. exact remove_edge. Qed.
+Print Assumptions C19_remove_edges.
+
+(** SubGraph(f): the edges between nodes the filter accepts (a name that is
+    not a node never survives, so the result has no dangling target). *)
+Theorem C19_subgraph_edges : forall f g u v,
+  edge (g_subgraph f g) u v <-> f u = true /\ In v (keys g) /\ f v = true /\ edge g u v.
+Proof. exact subgraph_edge. Qed.
+Print Assumptions C19_subgraph_edges.
+
+(** The checker's verdict carries over: every SubGraph of a graph without
+    cycles is accepted, every Remove of an accepted graph is accepted, and a
+    cycle reported after a Remove is a cycle of the graph itself. *)
+Theorem C19_subgraph_accepted : forall sh, perm_oracle sh -> forall f g,
+  wf g -> acyclic g -> exists ls, check_dag sh (g_subgraph f g) = VOk ls.
+Proof. exact subgraph_accepted. Qed.
+Print Assumptions C19_subgraph_accepted.
+
+Theorem C19_remove_accepted : forall sh, perm_oracle sh -> forall g x,
+  wf g -> (exists ls, check_dag sh g = VOk ls) -> exists ls, check_dag sh (g_remove g x) = VOk ls.
+Proof. exact remove_accepted. Qed.
+Print Assumptions C19_remove_accepted.
+
+Theorem C19_remove_circle : forall sh, perm_oracle sh -> forall g x c,
+  wf g -> check_dag sh (g_remove g x) = VCircle c -> ~ acyclic g.
+Proof. exact remove_circle. Qed.
+Print Assumptions C19_remove_circle.
+
+(** Rename: an error from the callback ends the call whatever else the
+    callback returned; without one, "missing in keys" exactly for a dangling
+    target; with an injective callback the edges are the images of the edges. *)
+Theorem C19_rename_callback_error : forall rn err g k,
+  In k (keys g) -> err k = true -> g_rename rn err g = RnErrF.
+Proof. exact rename_callback_error. Qed.
+Print Assumptions C19_rename_callback_error.
+
+Theorem C19_rename_missing_iff : forall rn err g,
+  wf g -> (forall k, In k (keys g) -> err k = false) ->
+  (g_rename rn err g = RnMissing <-> ~ targets_exist g).
+Proof. exact rename_missing_iff. Qed.
+Print Assumptions C19_rename_missing_iff.
+
+Theorem C19_rename_edges : forall rn err g g' u v,
+  wf g -> g_rename rn err g = RnOk g' ->
+  (forall a b, In a (keys g) -> In b (keys g) -> rn a = rn b -> a = b) ->
+  In u (keys g) -> In v (keys g) ->
+  (edge g' (rn u) (rn v) <-> edge g u v).
+Proof. exact rename_edge_inj. Qed.
+Print Assumptions C19_rename_edges.
+
+(** Closure(m, nodes): the given nodes and every node that has a path to one
+    of them and a path from one of them; for names that are nodes the
+    result is a map of the induced sub-graph (the panic after NewMap is
+    unreachable), for any other name Closure panics. *)
+Theorem C19_closure_nodes : forall sh, perm_oracle sh -> forall g, wf g ->
+  forall m, new_map sh g = MOk m -> forall nodes v,
+  In v (closure_set m nodes) <->
+  In v (keys g) /\
+  (In v nodes \/ ((exists a, In a nodes /\ path g v a) /\ (exists b, In b nodes /\ path g b v))).
+Proof. exact closure_set_spec. Qed.
+Print Assumptions C19_closure_nodes.
+
+Theorem C19_closure_total : forall sh, perm_oracle sh -> forall g, wf g ->
+  forall m, new_map sh g = MOk m -> forall nodes,
+  forallb (is_key g) nodes = true ->
+  exists m', closure sh m nodes = Some (MOk m') /\ m_g m' = closure_graph m nodes.
+Proof. exact closure_never_panics. Qed.
+Print Assumptions C19_closure_total.
+
+Theorem C19_closure_edges : forall m nodes u v,
+  edge (closure_graph m nodes) u v <->
+  In u (closure_set m nodes) /\ In v (closure_set m nodes) /\ edge (m_g m) u v.
+Proof. exact closure_graph_edge. Qed.
+Print Assumptions C19_closure_edges.
+
+(** a -> b -> c -> d with the shortcut a -> d: what lies between a and d is
+    everything; between b and b only b. *)
+Example ex_ops_graph : graph := [(0, [1; 3]); (1, [2]); (2, [3]); (3, []); (4, [])]%N.
+Example ex_closure :
+  match new_map sh_id ex_ops_graph with
+  | MOk m => closure_set m [0; 3]%N = [0; 1; 2; 3]%N /\ closure_set m [1]%N = [1]%N /\
+             closure sh_id m [9]%N = None
+  | MErr _ => False
+  end.
+Proof. vm_compute. repeat split; reflexivity. Qed.
+
+Example ex_remove_subgraph :
+  g_remove ex_ops_graph 1 = [(0, [3]); (2, [3]); (3, []); (4, [])]%N /\
+  g_subgraph (fun k => negb (N.eqb k 2)) ex_ops_graph = [(0, [1; 3]); (1, []); (3, []); (4, [])]%N.
+Proof. vm_compute. split; reflexivity. Qed.
+
+(** RevLayout (lay the reversed graph out, mirror the view): for every
+    accepted graph it returns a view in which every node lies inside
+    width x height, no two nodes share a coordinate and every edge of the
+    graph ITSELF goes strictly left to right. *)
+Theorem C19_rev_layout : forall sh, perm_oracle sh -> forall g, wf g ->
+  targets_exist g -> acyclic g ->
+  exists v, rev_layout gen_params sh g = Some v /\
+    (forall k, In k (keys g) -> (vx v k < v_width v)%nat /\ (0 <= vy v k < v_height v)%Z) /\
+    (forall a b, In a (keys g) -> In b (keys g) -> a <> b -> (vx v a, vy v a) <> (vx v b, vy v b)) /\
+    (forall u w, edge g u w -> (vx v u < vx v w)%nat).
+Proof. exact (rev_layout_ok gen_params gen_params_ok). Qed.
+Print Assumptions C19_rev_layout.
+
+Example ex_rev_layout :
+  match rev_layout gen_params sh_id ex_ops_graph with
+  | Some v => (vx v 0%N < vx v 1%N)%nat /\ (vx v 1%N < vx v 2%N)%nat /\ (vx v 2%N < vx v 3%N)%nat /\ (vx v 0%N < vx v 3%N)%nat
+  | None => False
+  end.
+Proof. vm_compute. repeat split; repeat constructor. Qed.
+
+(** * Round 3: LayoutMap on a Map object that has been through other calls
+
+    The layout depends only on the Map's current orientation ([m]: its
+    graph, closure and critical sets) and on the layer numbers it currently
+    holds; for ANY valid layer numbers (critical edges strictly increasing,
+    below Nlayer: the Kahn layers after NewMap, the pushed layers after an
+    earlier LayoutMap, the mirrored ones after Map.Reverse) the result is a
+    layout of the current orientation, and the layer numbers left behind are
+    valid again - so every layout in a call sequence NewMap / Reverse /
+    LayoutMap / Layout / RevLayout is a layout. *)
+Theorem C19_layout_from_any_valid_layers : forall m, accepted m -> forall L0, pinv m L0 ->
+  exists v, layout_from gen_params m L0 = VwOk v /\
+    v_width v = m_nlayer m /\
+    map fst (v_nodes v) = keys (m_g m) /\
+    (forall k, In k (keys (m_g m)) -> (vx v k < v_width v)%nat /\ (0 <= vy v k < v_height v)%Z) /\
+    (forall a b, In a (keys (m_g m)) -> In b (keys (m_g m)) -> a <> b -> (vx v a, vy v a) <> (vx v b, vy v b)) /\
+    (forall u w, edge (m_g m) u w -> (vx v u < vx v w)%nat) /\
+    pinv m (map (fun k => (k, vx v k)) (keys (m_g m))).
+Proof. exact (layout_from_ok gen_params gen_params_ok). Qed.
+Print Assumptions C19_layout_from_any_valid_layers.
+
+Theorem C19_layout_map_is_layout_from : forall m,
+  layout_from gen_params m (m_lay0 m) = layout_map gen_params m.
+Proof. exact (layout_from_lay0 gen_params). Qed.
+Print Assumptions C19_layout_map_is_layout_from.
+
+(** Map.Reverse keeps the layer numbers valid for the opposite orientation. *)
+Theorem C19_reverse_keeps_layers_valid : forall (m m' : dmap) (L L' : lays),
+  m_nlayer m' = m_nlayer m ->
+  (forall v, In v (keys (m_g m')) -> In v (keys (m_g m))) ->
+  (forall u v, In v (m_crit_outs m' u) -> In u (m_crit_outs m v) /\ In u (keys (m_g m')) /\ In v (keys (m_g m'))) ->
+  (forall v, In v (keys (m_g m')) -> lget L' v = (m_nlayer m - 1 - lget L v)%nat) ->
+  pinv m L -> pinv m' L'.
+Proof. exact mirror_pinv. Qed.
+Print Assumptions C19_reverse_keeps_layers_valid.
+
+(** a -> b: NewMap, Reverse, LayoutMap draws b left of a (the reversed
+    orientation), and a second Reverse + LayoutMap draws a left of b again. *)
+Example ex_seq_reverse_layout :
+  match new_map sh_id [(0, [1]); (1, [])]%N, new_map sh_id (rev_graph sh_id [(0, [1]); (1, [])]%N) with
+  | MOk m, MOk mr =>
+      match layout_from gen_params mr (mirror_lays (m_nlayer m) (m_lay0 m)) with
+      | VwOk v => (vx v 1%N < vx v 0%N)%nat
+      | _ => False
+      end
+  | _, _ => False
+  end.
+Proof. vm_compute. repeat constructor. Qed.
